@@ -960,7 +960,10 @@ theorem gvar_patch_order_independent (g : Option Bytes) (gps gps' : List GlyphPa
 two final tables carry the same long-offsets flag, `gps1` then `gps2` on the result gives byte for byte
 the table of `gps1 ++ gps2` in one go (base gvar with glyphCount = maxGid + 1, intermediate table below
 4 GiB).  Without the flag condition the tables may differ in the flag, the offset encoding and the zero
-pad byte short offsets force — known finding C18-offset-width-history-dependent. -/
+pad byte short offsets force — known finding C18-offset-width-history-dependent.  The condition on the
+INTERMEDIATE table is needed too: odd-length data written while the table still had short offsets keeps
+its pad byte when a later patch widens the table, whereas the one-call result (long from the start)
+has none (harness: `boundary#gvar-pad-history`, both final tables long, 1 byte apart). -/
 theorem gvar_patch_grouping_independent (b : Bytes) (gps1 gps2 : List GlyphPatches) (m : Nat)
     (out1 out2 out12 : Bytes)
     (hgc : ∀ v, gvarRead b = some v → v.glyphCount = m + 1) (hsz : out1.length < 2 ^ 32)
